@@ -40,5 +40,9 @@ def run(ctx):
     n = ecarry.check_raw_view(ctx, F)
     ctx.floor("E-NUM.rawview", "functions reading the raw digit view", n, 2)
     substrate.run(ctx, F, dm=True)
+    ctx.explain("E-SAT.scale.pair: the scale-down of the terminal value (2^(vars - scale_exp)) and the scale-up of the result (<< "
+                "scale_exp) of sat_count_edge are taken under one and the same condition.")
+    nsp = esat.check_scale_pairing(ctx, F)
+    ctx.floor("E-SAT.scale.pair", "sat_count_edge bodies with precision scaling", nsp, 2)
     ctx.not_decided = ("exactness of the number types beyond the carry chain (shifts, comparisons, conversions, textual "
                        "output), the scaling by 2^vars around the recursion")
